@@ -70,11 +70,13 @@ ENC = C.Kind("time_to_hexadecimal_timestamp", impl=_enc, model=lambda a: f"t2h {
 
 def _dec(a):
     from aioswitcher.schedule import tools
-    zone, now, h = a
+    zone, now, h = a[0], a[1], a[2]
 
     def f():
         try:
-            return "ok " + tools.hexadecimale_timestamp_to_localtime(h.encode())
+            # (the timestamp as bytes, as the parser hands it over - or, 4th element "str", as the same characters in a str, which the
+            # function's slicing and int(…, 16) take just as well)
+            return "ok " + tools.hexadecimale_timestamp_to_localtime(h if len(a) > 3 and a[3] == "str" else h.encode())
         except Exception as e:  # noqa
             return "raise " + C.exc_name(e)
     return Z.under(zone, now, f)
@@ -144,6 +146,7 @@ def streams(ctx):
     ctx.run_cases(ENC, "encode-zones-x-dates-x-minutes", enc, exhaustive=False, sample_every=max(1, len(enc) // 3))
     ctx.run_cases(DEC, "decode-zones-x-instants", dec + [("UTC", 1.7e9, ""), ("UTC", 1.7e9, "zz"), ("UTC", 1.7e9, "00"), ("UTC", 1.7e9, "ffffffff")],
                   exhaustive=False, sample_every=max(1, len(dec) // 2))
+    ctx.run_cases(DEC, "decode-timestamps-given-as-text", [(z, n, h, "str") for (z, n, h) in dec[::3]], exhaustive=False, sample_every=max(1, len(dec) // 6))
     ctx.run_cases(RT, "encode-then-decode", rt, exhaustive=False, sample_every=max(1, len(rt) // 2))
     # ONE process living through a local midnight (and through a UTC midnight that is not a local one): "today" must follow the clock
     import datetime as _dt
